@@ -5,9 +5,13 @@
       [parse_q]    : [f32::from_str] + the tests [== 0.0] / [== 1.0] made on its result,
       [parse_mime] : [Mime::from_str],
       [enc]        : the encoders (algorithm, level, body),
-    so it holds for the real ones whatever they do; only [lossless] assumes something about [enc]
+    so it holds for the real ones whatever they do; only [lossless_partial] assumes something about [enc]
     (a decoder inverts it and its output is never empty) — that part is validated on every run by
-    the standard decoders of flate2 / brotli / zstd, not proved (partial). *)
+    the standard decoders of flate2 / brotli / zstd, not proved (partial).
+
+    The model describes kvarn after the repairs 7270dfd (OWS in list_header), 46abfcf / fb022d9 / 1fc432a
+    (refusal of identity: under the floor and for opted-out handlers, "*;q=0", any case) and ec0a225 (memo
+    cells written once across threads); what each repaired is kept as a [_v0_refuted] theorem. *)
 From KV Require Import Bytes RustInt Range Negotiate NegotiateProofs ListHeaderProofs.
 Open Scope N_scope.
 
